@@ -377,6 +377,47 @@ def gen_hand_client(r, *, hmax=8, wmax=8, allow_stochastic=True, deterministic_o
     return spec
 
 
+def gen_reset_client(r, name=None, *, random_composition=True, stochastic_obs=True):
+    """hand-assembled client around a built-in (random) reset function, with a random composition whose
+    documented preconditions the reset function guarantees"""
+    name = name or r.choice(['empty', 'rooms', 'dynamic_obstacles', 'keydoor', 'crossing', 'teleport', 'memory', 'memory_rooms'])
+    cols = r.sample(['RED', 'GREEN', 'BLUE', 'YELLOW'], r.randint(2, 4))
+    reset = {
+        'empty': lambda: {'name': 'empty', 'shape': [r.randint(4, 7), r.randint(4, 7)], 'random_agent': r.random() < 0.7, 'random_exit': r.random() < 0.3},
+        'rooms': lambda: {'name': 'rooms', 'shape': [r.choice([5, 7, 9]), r.choice([5, 7, 9])], 'layout': [r.choice([1, 2]), 2]},
+        'dynamic_obstacles': lambda: {'name': 'dynamic_obstacles', 'shape': [r.randint(5, 7), r.randint(5, 7)], 'num_obstacles': r.randint(1, 4), 'random_agent': r.random() < 0.5},
+        'keydoor': lambda: {'name': 'keydoor', 'shape': [r.randint(4, 8), r.randint(5, 8)]},
+        'crossing': lambda: {'name': 'crossing', 'shape': [r.choice([5, 7]), r.choice([5, 7, 9])], 'num_rivers': r.randint(1, 3), 'object_type': 'Wall'},
+        'teleport': lambda: {'name': 'teleport', 'shape': [r.randint(4, 7), r.randint(4, 7)]},
+        'memory': lambda: {'name': 'memory', 'shape': [r.randint(5, 8), r.choice([5, 7, 9])], 'colors': cols},
+        'memory_rooms': lambda: {'name': 'memory_rooms', 'shape': [r.choice([7, 9]), r.choice([7, 9])], 'layout': [2, 2], 'colors': cols, 'num_beacons': r.randint(1, 2), 'num_exits': 2},
+    }[name]()
+    base = ['move_agent', 'turn_agent'] + {'dynamic_obstacles': ['move_obstacles'], 'teleport': ['teleport'], 'keydoor': ['actuate_door', 'pickndrop']}.get(name, [])
+    memory = name.startswith('memory')
+    if random_composition:
+        chain = gen_chain(r) if r.random() < 0.5 else base + ([r.choice(ALL_TRANSITIONS)] if r.random() < 0.3 else [])
+        chain = list(dict.fromkeys(chain))
+        unique = None if memory else 'Exit'
+        rewards = [gen_reward(r, list(BUILTIN_TYPES), unique, memory) for _ in range(r.randint(1, 3))]
+        term = gen_term(r, list(BUILTIN_TYPES))
+        obs = gen_obs(r, deterministic_only=not stochastic_obs)
+        if obs['name'] == 'partially_occluded' and obs['area'][0][1] != 0:
+            obs['area'][0] = [obs['area'][0][0] - obs['area'][0][1], 0]
+        actions = gen_actions(r)
+    else:
+        chain = base + (['move_obstacles'] if r.random() < 0.3 and 'move_obstacles' not in base else [])
+        unique = None
+        rewards = [{'name': 'living_reward'}, {'name': 'reach_exit'}]
+        term = {'name': 'reach_exit'}
+        obs = {'name': r.choice(['stochastic_raytracing', 'stochastic_raytracing', 'raytracing', 'partially_occluded']), 'area': [[-4, 0], [-2, 2]]}
+        actions = list(ACTIONS)
+    return {
+        'kind': 'hand', 'reset': reset, 'world': None, 'pool_worlds': [], 'chain': chain, 'rewards': rewards, 'term': term, 'obs': obs,
+        'actions': actions, 'types': list(BUILTIN_TYPES), 'colors': ['NONE', 'RED', 'GREEN', 'BLUE', 'YELLOW'],
+        'unique': unique, 'beacon': memory, 'via_factory': r.random() < 0.5, 'env_seed': r.randrange(2**31),
+    }
+
+
 SHIPPED = [
     'gv_crossing.5x5.yaml',
     'gv_crossing.7x7.yaml',
